@@ -19,7 +19,10 @@ pub struct ProtoApiToken { pub token_id: Uuid, pub issued_at: OffsetDateTime }
 // a user token is acceptable only while: the account is inside its validity window AND
 //   (it is the anonymous account) OR (its session is recorded, not revoked, and the recorded expiry matches the token's)
 //   OR (no session is recorded and the token was issued less than the grace window ago)
-pub open spec fn uat_ok(ct: Duration, uat: UserAuthToken, sessions: Option<Map<Uuid, Session>>) -> bool {
+// `strict`: whether the grace boundary instant itself counts as expired (the statement does not decide it: the property
+// clause uses strict = false, the auxiliary exactness clause strict = true)
+pub open spec fn grace_ok(ct: Duration, issued: OffsetDateTime, strict: bool) -> bool { if strict { ct.ns() < issued.unix_ns + AUTH_TOKEN_GRACE_WINDOW.ns() } else { ct.ns() <= issued.unix_ns + AUTH_TOKEN_GRACE_WINDOW.ns() } }
+pub open spec fn uat_ok(ct: Duration, uat: UserAuthToken, sessions: Option<Map<Uuid, Session>>, strict: bool) -> bool {
     uat.uuid == UUID_ANONYMOUS || (
         if sessions is Some && sessions->Some_0.contains_key(uat.session_id) {
             match (sessions->Some_0[uat.session_id].state, uat.expiry) {
@@ -27,10 +30,10 @@ pub open spec fn uat_ok(ct: Duration, uat: UserAuthToken, sessions: Option<Map<U
                 (SessionState::NeverExpires, None) => true,
                 _ => false,
             }
-        } else { ct.ns() < uat.issued_at.unix_ns + AUTH_TOKEN_GRACE_WINDOW.ns() })
+        } else { grace_ok(ct, uat.issued_at, strict) })
 }
-pub open spec fn apit_ok(ct: Duration, apit: ProtoApiToken, tokens: Option<Map<Uuid, ApiToken>>) -> bool {
-    (tokens is Some && tokens->Some_0.contains_key(apit.token_id)) || ct.ns() < apit.issued_at.unix_ns + AUTH_TOKEN_GRACE_WINDOW.ns()
+pub open spec fn apit_ok(ct: Duration, apit: ProtoApiToken, tokens: Option<Map<Uuid, ApiToken>>, strict: bool) -> bool {
+    (tokens is Some && tokens->Some_0.contains_key(apit.token_id)) || grace_ok(ct, apit.issued_at, strict)
 }
 pub struct Account {}
 impl Account {
